@@ -45,6 +45,7 @@ type sigView struct {
 type filt struct{ sig, byteIdx, mask, length, off int }
 
 type obs struct {
+	nilEntries    int    // nil pointers found in the slices returned by Decode
 	orderBrokenBy string // first op after which a signal's byte order differed from the message's
 	brokenBy      string // first edit after which the layout was no longer well-formed ("" = never)
 	msgBE         bool   // Message.ByteOrder() == big endian
@@ -104,7 +105,8 @@ func observe(w *world, payloads [][]byte) (o obs) {
 	for _, p := range payloads {
 		row := [][2]uint64{}
 		for _, d := range sl.Decode(p) {
-			if d == nil { // multiplexer: no decoding (noted, not claimed)
+			if d == nil { // "one result per standard or enum signal": a nil entry is not a result
+				o.nilEntries++
 				continue
 			}
 			row = append(row, [2]uint64{uint64(w.ids[d.Signal.EntityID()]), d.RawValue})
@@ -253,6 +255,9 @@ func checkProps(o obs, payloads [][]byte, nbits int) []failure {
 			break
 		}
 	}
+	if o.nilEntries > 0 {
+		fails = append(fails, failure{"c02-decode-nil-entry", fmt.Sprintf("Decode returned %d nil entr(y/ies) (one per multiplexer signal of the layout) among its results", o.nilEntries)})
+	}
 	// one result per standard / enum signal, in layout order, with exactly the payload bits
 	for pi, row := range o.decodes {
 		if len(row) != len(wantOrder) {
@@ -272,7 +277,11 @@ func checkProps(o obs, payloads [][]byte, nbits int) []failure {
 				cl := "c02-raw-le"
 				if v.be {
 					cl = "c02-raw-be"
-					if isD08(v) {
+					// the known finding is exactly "read with the LSB-anchored offset" (theorem
+					// decode_be_one_byte_spec): any other value for that shape is a different failure
+					lsb := v
+					lsb.be = false
+					if isD08(v) && d[1] == rawSpec(lsb, payloads[pi]) {
 						cl = "c02-be-one-byte-lsb-anchored"
 					}
 				}
